@@ -412,7 +412,9 @@ class Emitter:
             oargs = ty.params[-2][1]
             pick = None
             if last in ('value_type', 'reference', 'const_reference'):
-                pick = 1 if outer.endswith('__alloc_traits') else (0 if outer in ('std::vector', 'std::set', 'std::unordered_set', 'std::initializer_list', 'std::queue') else None)
+                pick = 1 if outer.endswith('__alloc_traits') else (0 if outer in ('std::vector', 'std::set', 'std::unordered_set', 'std::initializer_list', 'std::queue',
+                                                                                  'std::__detail::_Node_const_iterator', 'std::__detail::_Node_iterator', 'std::__detail::_Node_iterator_base',
+                                                                                  'std::_Rb_tree_iterator', 'std::_Rb_tree_const_iterator') else None)
             elif last == 'mapped_type' and outer in ('std::map', 'std::unordered_map'):
                 pick = 1
             elif last == 'key_type' and outer in ('std::map', 'std::unordered_map', 'std::set', 'std::unordered_set'):
